@@ -40,6 +40,14 @@ Deviations from dcsrch, stated: the give-up exits (rounding errors, xtol, stp = 
 warning with a usable step ("giving up is not reported as success", see known_findings.txt); `stp >= stpmax` / `stp <= stpmin`
 instead of `==` (the same after the clamp); convergence is tested before the give-up exits (MINPACK overwrites the warning by
 CONVERGENCE: the same outcome).
+
+Convex quadratics (property clause "on convex quadratic objectives all five line-searches succeed"), as far as decided:
+  convexq/dcstep_phi|psi   dcstep on samples of phi / of the modified function: cases 1, 2 (and 3 unless cut) return the exact minimiser, which passes
+                           the convergence test of do_get (phi: c1 <= 1/2; modified function: every 0 < c1 < c2 < 1)
+  mt/do_get/convexq_second_trial   real loop body, first iteration, overshooting t0: the second evaluated step is that minimiser
+  convexq/<search>         backtracking / LeMarechal / Fletcher zoom / Fletcher do_get, real loop bodies with "every kept step is a sample of phi" as
+                           an inductive invariant: at every clamp(interpolate(..)) site the next evaluated step is the exact minimiser unless the
+                           safeguard interval excludes it, and Armijo (c1 <= 1/2) + strong Wolfe hold there
 """
 import astload
 from nvwp import V, Unsupported, AND, OR, NOT, IMP, ITE
